@@ -14,6 +14,9 @@ operations over the public and up to two private tables.
 
 Oracle: every operation carries the key the generator built it from; the real result must be the
 object `table[Z][A].ion[q]`, report exactly that key, or raise for an invalid key.
+Real-code-only probes (no model counterpart): numeric charge keys, negative keys, atoms of a dropped
+table, pickle data taken before and loaded after further lookups on the same atom (`stale_pickles`),
+and identity between two lookups while the caller holds no reference (`identity_over_time`).
 """
 from __future__ import annotations
 
@@ -661,12 +664,158 @@ def outside_model_keys(run: Run, pt, base, tables):
     core.PRIVATE_TABLES.pop("c08-dropped", None)
 
 
+_CAP = 5   # violations reported per probe and table (every further case would repeat the first)
+
+
+def stale_pickles(run: Run, pt, base, labels):
+    """pickle data taken BEFORE further lookups on the same atom and loaded AFTER them (real code only; the
+    model's `reduce` dumps and loads in one step): restoring still returns the atom itself, and every ion /
+    isotope first handed out in between is still the single object of its key by every route.  The public
+    table must not have served any ion yet when this runs (first thing of the run); the private table is new."""
+    import pickle
+    from periodictable import core, mass
+
+    def table_for(label):
+        if label == "public":
+            return pt.elements, None
+        name = "c08-stale-%d" % (_COUNTER[0] + 1)
+        _COUNTER[0] += 1
+        t = core.PeriodicTable(name)
+        mass.init(t)
+        return t, name
+
+    for label in labels:
+        tbl, name = table_for(label)
+        nbad = 0
+
+        def bad(what, **inp):
+            nonlocal nbad
+            nbad += 1
+            if nbad <= _CAP:
+                run.violation(what, dict(kind="stale-pickle", table=label, **inp), route="stale-pickle")
+        try:
+            for z in sorted(base):
+                ions = base[z][2]
+                el = tbl[z]
+                atoms = [(None, el)] + [(a, el[a]) for a in el.isotopes]
+                # 1. data of the element and of every isotope, before any of their ions exists
+                blobs = [pickle.dumps(x, protocol=(2 if (z + k) % 3 == 0 else pickle.DEFAULT_PROTOCOL))
+                         for k, (_, x) in enumerate(atoms)]
+                # 2. first lookups
+                firsts = [[x.ion[q] for q in ions] for _, x in atoms]
+                # 3. restore the earlier data, 4. look everything up again
+                for (a, x), blob, ionobjs in zip(atoms, blobs, firsts):
+                    run.count(key=("stale", label, z, a), nontrivial=True, tag="stale-pickle")
+                    back = pickle.loads(blob)
+                    if back is not x:
+                        bad("pickle data of %r taken before its ions were looked up restores to another object" % (x,),
+                            z=z, isotope=a, charge=None)
+                    canon = tbl[z] if a is None else tbl[z][a]
+                    if canon is not x:
+                        bad("%r is no longer the object table[Z][A] after restoring earlier pickle data" % (x,),
+                            z=z, isotope=a, charge=None)
+                    for q, ion in zip(ions, ionobjs):
+                        run.count(key=("stale", label, z, a, q), nontrivial=True, tag="stale-pickle")
+                        again = x.ion[q]
+                        if again is not ion or canon.ion[q] is not ion:
+                            bad("dumps(%r); first lookup of .ion[%d]; loads(data): .ion[%d] is now a second object"
+                                % (x, q, q), z=z, isotope=a, charge=q)
+                            continue
+                        if pickle.loads(pickle.dumps(ion)) is not ion or core.change_table(ion, tbl) is not ion:
+                            bad("dumps(%r); first lookup of .ion[%d]; loads(data): pickling the ion / moving it to its "
+                                "own table gives another object" % (x, q), z=z, isotope=a, charge=q)
+            if name is not None:
+                # isotopes created on demand between dumps(element) and loads
+                bare = core.PeriodicTable(name + "-bare")
+                for z in sorted(base):
+                    el = bare[z]
+                    blob = pickle.dumps(el)
+                    isos = [el.add_isotope(a) for a in (z + 1, 2 * z + 1)]
+                    back = pickle.loads(blob)
+                    run.count(key=("stale-iso", z), nontrivial=True, tag="stale-pickle")
+                    if back is not el or [el[i.isotope] for i in isos] != isos or any(el[i.isotope] is not i for i in isos):
+                        bad("dumps(%r); add_isotope; loads(data): element or its new isotopes are second objects" % (el,),
+                            z=z, isotope=z + 1, charge=None, bare=True)
+        except Exception as e:  # noqa: nothing here may raise
+            run.violation("stale pickle probe raised %s: %s" % (type(e).__name__, e),
+                          dict(kind="stale-pickle", table=label), route="stale-pickle")
+        finally:
+            if name is not None:
+                core.PRIVATE_TABLES.pop(name, None)
+                core.PRIVATE_TABLES.pop(name + "-bare", None)
+
+
+def identity_over_time(run: Run, pt, base, tables):
+    """one object per key also when the caller keeps no reference between two lookups (real code only; the
+    sessions keep every returned atom alive): a weak reference to the atom of the first lookup is still
+    alive after a garbage collection and is the atom of the second lookup, and a marker attribute left on
+    it is found on it."""
+    import gc
+    import weakref
+    mark = "_ptv_c08_mark"
+
+    def lookup(tbl, z, a, q):
+        x = tbl[z]
+        if a is not None:
+            x = x[a]
+        if q is not None:
+            x = x.ion[q]
+        return x
+
+    for label, tbl in tables:
+        nbad = 0
+
+        def bad(what, key):
+            nonlocal nbad
+            nbad += 1
+            if nbad <= _CAP:
+                run.violation(what, dict(kind="identity-over-time", table=label, z=key[0], isotope=key[1], charge=key[2]),
+                              route="identity-over-time")
+        keys = []
+        for z in sorted(base):
+            ions = base[z][2]
+            for a in [None] + list(tbl[z].isotopes):
+                keys.append((z, a, None))
+                keys += [(z, a, q) for q in ions]
+        token = "%s-%d" % (label, run.rng.randrange(10 ** 9))
+        refs = []
+        try:
+            for key in keys:
+                x = lookup(tbl, *key)
+                setattr(x, mark, (token, key))
+                refs.append(weakref.ref(x))
+                del x
+            gc.collect()
+            for key, r in zip(keys, refs):
+                run.count(key=("overtime", label) + key, nontrivial=key[2] is not None, tag="identity-over-time")
+                y = lookup(tbl, *key)
+                first = r()
+                if first is None:
+                    bad("the object of the first lookup of %r no longer exists at the second lookup "
+                        "(no reference was kept in between)" % (y,), key)
+                elif first is not y:
+                    bad("second lookup of %r gave another object than the first" % (y,), key)
+                elif vars(y).get(mark) != (token, key):
+                    bad("attribute left on %r at the first lookup is not on the object of the second lookup" % (y,), key)
+                vars(y).pop(mark, None)
+                del y, first
+        except Exception as e:  # noqa: nothing here may raise
+            run.violation("identity-over-time probe raised %s: %s" % (type(e).__name__, e),
+                          dict(kind="identity-over-time", table=label), route="identity-over-time")
+
+
 def run(run: Run) -> int:
     pt = import_repo()
     base = read_base()
     run.prove(generated=["ElementBase"])
     sessions = []
     try:
+        from periodictable import core as _core, mass as _mass
+        stale_pickles(run, pt, base, ["public", "private"])   # first: no ion of the public table exists yet
+        priv = _core.PeriodicTable("c08numq")
+        _mass.init(priv)
+        # before the sessions: they keep every atom they were handed alive
+        identity_over_time(run, pt, base, [("public", pt.elements), ("private", priv)])
         for private in (False, True):
             s = sweep_session(pt, base, private, run.tier, run.rng)
             s.check_unique()
@@ -674,9 +823,6 @@ def run(run: Run) -> int:
             sessions.append(s)
         run_sessions(run, pt, sessions, "core-sweep")
         run.exhaustive = True
-        from periodictable import core as _core, mass as _mass
-        priv = _core.PeriodicTable("c08numq")
-        _mass.init(priv)
         numeric_charges(run, pt, base, [("public", pt.elements), ("private", priv)])
         outside_model_keys(run, pt, base, [("public", pt.elements), ("private", priv)])
         n = 600 if run.tier == "quick" else 15000
@@ -708,6 +854,25 @@ def replay(data) -> int:
             outside_model_keys(r, pt, base, [("public", pt.elements)])
             for x in r.violations[:5]:
                 print("ORACLE  :", x["what"], x["input"].get("got", ""))
+                rc = 1
+            continue
+        if v["input"].get("kind") in ("stale-pickle", "identity-over-time"):
+            r = Run("C08", "quick", 0)
+            z = v["input"].get("z")
+            sub = {z: base[z]} if z in base else base
+            lab = v["input"].get("table", "public")
+            if v["input"]["kind"] == "stale-pickle":
+                stale_pickles(r, pt, sub, [lab])
+            else:
+                from periodictable import core as _core, mass as _mass
+                tb = pt.elements
+                if lab != "public":
+                    _COUNTER[0] += 1
+                    tb = _core.PeriodicTable("c08-replay-%d" % _COUNTER[0])
+                    _mass.init(tb)
+                identity_over_time(r, pt, sub, [(lab, tb)])
+            for x in r.violations[:5]:
+                print("ORACLE  :", x["what"])
                 rc = 1
             continue
         if v["input"].get("kind") == "numeric-charge":
